@@ -8,7 +8,7 @@ class C05(Check):
     id = "C05"
     level = "exploration"
     rule = (
-        "Domain: fixtures of every dialect (pinned slice with all rules; Hypothesis-chosen, unmutated and with 1-3 drawn "
+        "Domain: a fixed, seed-independent backbone (fixture slice of every dialect, fixed mutants, fixed generated templates and queries, degenerate files) plus Hypothesis-chosen fixtures (unmutated and with 1-3 drawn "
         "mutation operators), arbitrary text, generated valid sqlite queries with layout noise (DISTINCT enabled), "
         "generated jinja/python/placeholder templates, deep/wide stress inputs x rule selections (all, core, groups, "
         "format set, small sets) x 13 non-default rule/layout option sets x lint and fix mode, through "
@@ -24,11 +24,7 @@ class C05(Check):
         assert hasattr(BaseRule, "_log_critical_errors")
 
     def pinned(self, tier):
-        n = 3 if tier == "quick" else 30
-        for i, c in enumerate(gens.corpus_slice(n, maxsize=500 if tier == "quick" else 1500)):
-            c.update(templater="raw", rules="all", rule_options=lintlib.RULE_OPTIONS[i % len(lintlib.RULE_OPTIONS)],
-                     fix=bool(i % 2))
-            yield c
+        yield from lintlib.pinned_lint_cases(tier, per_dialect=3, mutants_per_dialect=4, templates=100, salt=5)
         from vlib.lexparse import PINNED_TEXT
 
         for i, t in enumerate(PINNED_TEXT):  # degenerate files: empty, blank, lone tokens, unterminated quotes ...
@@ -45,7 +41,7 @@ class C05(Check):
         return lintlib.lint_domain(tier)
 
     def examples(self, tier):
-        return 60 if tier == "quick" else 2500
+        return 30 if tier == "quick" else 1200
 
     def run_case(self, case):
         out = Outcome(labels=["templater:" + case.get("templater", "raw"), "fix" if case.get("fix") else "lint"])
